@@ -1,4 +1,5 @@
 import Juniper.Proofs.StreamClose
+import Juniper.Proofs.StreamPeek
 /-!
 # Close discipline of the multi-stream combinators over *pipelines* (C09: Join's later arguments,
 Flatten's inner streams, and stages stacked on top of them)
@@ -271,5 +272,117 @@ theorem flatten_scripted_closed_once (so : Src (Src β)) (h0 : so.closes = 0) (h
   refine ⟨ho.1, ho.2, ?_⟩
   exact flatten_pipelines_inner_closed_once (mi := src (α := β)) (proj := id) (Forwards.refl src) FreshScript
     (fun s c hs => freshScript_step s c hs) (fun s c x s' hs hst => freshScript_item s c x s' hs hst) so hfr cs
+
+/-! ## `WithPeek` driven through `Peek` and `Next` in any order -/
+
+section peekclose
+variable {α : Type}
+
+theorem peekNext_moves {σ : Type} (m : SM σ α) (p : PeekSt σ α) (c : Bool) :
+    (peekNext m p c).2.inner = p.inner ∨ (peekNext m p c).2.inner = (m.step p.inner c).2 := by
+  obtain ⟨s, curr⟩ := p
+  cases curr with
+  | some a => left; simp [peekNext, stPeekNextHas]
+  | none => right; simp [peekNext, stPeekNextHas]
+
+/-- any interleaving of `Peek` and `Next` moves the source along one of its own runs -/
+theorem speekRun_reach {σ : Type} (m : SM σ α) (ops : List SPeekOp) (p : PeekSt σ α) :
+    ∃ ds, (speekRun m ops p).2.inner = afterS m ds p.inner := by
+  induction ops generalizing p with
+  | nil => exact ⟨[], rfl⟩
+  | cons o ops ih =>
+    simp only [speekRun]
+    obtain ⟨ds, hds⟩ := ih (speekOp m o p).2
+    have hmove : (speekOp m o p).2.inner = p.inner ∨ (speekOp m o p).2.inner = (m.step p.inner o.ctx).2 := by
+      cases o with
+      | next c => exact peekNext_moves m p c
+      | peek c => exact peekPeek_moves m p c
+    rcases hmove with h | h
+    · exact ⟨ds, by rw [hds, h]⟩
+    · exact ⟨o.ctx :: ds, by rw [hds, h]; rfl⟩
+
+/-- **`WithPeek` used through `Peek` and `Next` in any order, any contexts, any fault script, then
+`Close`**: the source has been closed exactly once and not pulled afterwards. -/
+theorem peek_interleave_closes_once (s0 : Src α) (h0 : s0.closes = 0) (ops : List SPeekOp) :
+    (peekClose src (speekRun src ops ⟨s0, none⟩).2).inner.closes = 1 ∧
+    (peekClose src (speekRun src ops ⟨s0, none⟩).2).inner.after = s0.after := by
+  obtain ⟨ds, hds⟩ := speekRun_reach src ops ⟨s0, none⟩
+  have hl := src_afterS_log s0 h0 ds
+  simp only [peekClose, stPeekCloseForwards_fact, if_true]
+  rw [hds]
+  exact ⟨by show (afterS src ds s0).closes + 1 = 1; rw [hl.1], hl.2⟩
+end peekclose
+
+/-! ## `Flatten`: no inner stream is lost from the ghost lists -/
+
+section flatcount
+universe u' v'
+variable {τ : Type u'} {α : Type v'}
+
+/-- every inner stream the scripted outer stream has handed out is in the ghost lists -/
+def FlatCount (st : FlattenSt (Src τ) τ) : Prop := st.finished.length + st.curr.toList.length = st.outer.pulled
+
+theorem src_pulled_step (s : Src τ) (c : Bool) :
+    (srcStep s c).2.pulled = s.pulled + (match (srcStep s c).1 with | .item _ => 1 | _ => 0) := by
+  obtain ⟨sc, ca, p, cl, a⟩ := s
+  cases c with
+  | false => simp [srcStep]
+  | true =>
+    cases sc with
+    | nil => simp [srcStep]
+    | cons e r => cases e <;> simp [srcStep]
+
+theorem flatCount_step (mi : SM τ α) {st : FlattenSt (Src τ) τ} (h : FlatCount st) (c : Bool) :
+    FlatCount ((flatten src mi).step st c).2 := by
+  obtain ⟨so, curr, fin⟩ := st
+  unfold FlatCount at h ⊢
+  cases curr with
+  | none =>
+    have hp := src_pulled_step so c
+    rcases hy : srcStep so c with ⟨r, u⟩
+    have hstep : (src (α := τ)).step so c = (r, u) := hy
+    rw [hy] at hp
+    simp only at hp h
+    cases r with
+    | item x => simp only [flatten, hstep, flattenOuterOn_item]; simp at hp h ⊢; omega
+    | skip => simp only [flatten, hstep]; simp at hp h ⊢; omega
+    | end_ => simp only [flatten, hstep, flattenOuterOn_end]; simp at hp h ⊢; omega
+    | err e => simp only [flatten, hstep, flattenOuterOn_err]; simp at hp h ⊢; omega
+  | some x =>
+    rcases hy : mi.step x c with ⟨r, x'⟩
+    cases r with
+    | item a => simp only [flatten, hy, flattenInnerOn_item]; simpa using h
+    | skip => simp only [flatten, hy]; simpa using h
+    | err e => simp only [flatten, hy, flattenInnerOn_err]; simpa using h
+    | end_ =>
+      simp only [flatten, hy, flattenInnerOn_end, stFlattenClosesEnded_fact, stFlattenClearsCurr_fact, if_true]
+      simp at h ⊢; omega
+
+theorem flatCount_afterS (mi : SM τ α) {st : FlattenSt (Src τ) τ} (h : FlatCount st) (cs : List Bool) :
+    FlatCount (afterS (flatten src mi) cs st) := by
+  induction cs generalizing st with
+  | nil => exact h
+  | cons c cs ih => exact ih (flatCount_step mi h c)
+
+/-- … also after `Close`: none of the inner streams obtained is lost from the ghost lists the
+closed-exactly-once statements range over -/
+theorem flatten_none_lost (mi : SM τ α) (so : Src τ) (h0 : so.pulled = 0) (cs : List Bool) :
+    let st' := (flatten src mi).close (afterS (flatten src mi) cs ⟨so, none, []⟩)
+    (st'.finished ++ st'.curr.toList).length = st'.outer.pulled := by
+  have h := flatCount_afterS mi (st := ⟨so, none, []⟩) (by simp [FlatCount, h0]) cs
+  generalize afterS (flatten src mi) cs ⟨so, none, []⟩ = st at h
+  obtain ⟨s1, curr, fin⟩ := st
+  unfold FlatCount at h
+  intro st'
+  cases curr with
+  | none =>
+    have : st'.finished = fin ∧ st'.curr = none ∧ st'.outer.pulled = s1.pulled := by
+      simp only [st', flatten]; split <;> exact ⟨rfl, rfl, rfl⟩
+    rw [this.1, this.2.1, this.2.2]; simpa using h
+  | some y =>
+    have : st'.finished = fin ∧ st'.curr = some (mi.close y) ∧ st'.outer.pulled = s1.pulled := by
+      simp only [st', flatten, flattenCloseCurr_eq, stFlattenCloseCurr_fact.1, if_true]; split <;> exact ⟨rfl, rfl, rfl⟩
+    rw [this.1, this.2.1, this.2.2]; simpa using h
+end flatcount
 
 end Juniper.Proofs.StreamDen
